@@ -905,6 +905,10 @@ class CSSVariable(CSSFunction):
         # store: name of variable
         store = {'ident': None, 'fallback': None}
         ok, seq, store, unused = ProdParser().parse(cssText, 'CSSVariable', prods)
+        if ok and 'ident' not in store:
+            # ``var(`` at the end of input: nothing after the function start
+            ok = False
+            self._log.error('CSSVariable: No variable name found.')
         self.wellformed = ok
 
         if ok:
